@@ -307,6 +307,12 @@ def nt_registry():
         g.setdefault('ordered_calls', []).append(kw)
         # the callee's own contract (ord/*) REQUIRES at least one last time (it takes their maximum): the caller has to establish that
         ip.prove('nt/callee-requires-a-last-time', lt.length >= 1, {'an empty selection for the last operator must not reach the contraction': True})
+        jq = fresh_int('lt_j')
+        for seq_, fact_, length_ in list(ip.universals):          # instances at jq of what the code's own tests established
+            ip.add_pc(z3.Implies(z3.And(jq >= 0, jq < length_), to_z3(fact_(jq))))
+        for rec_ in ip.ghost.get('filters', {}).values():
+            ip.add_pc(rec_['facts_m'](jq))
+        ip.prove('nt/callee-requires-last-times-not-before-the-first', z3.Implies(z3.And(jq >= 0, jq < lt.length), lt.fn(jq) >= to_int(ft[0])))
         # "a time step passed by the caller governs both the returned time axes and the dynamics"
         ip.prove('nt/dt-governs-dynamics', veq(kw['dt'], g['dt_axes']) if 'dt' in kw else z3.BoolVal(False),
                  {'dt_forwarded': 'dt' in kw})
@@ -795,6 +801,13 @@ def ntn_registry(nops):
         lt = kw['last_times'].copy()
         g.setdefault('ordered_calls', []).append(kw)
         ip.prove('nt/callee-requires-a-last-time', lt.length >= 1)
+        jq = fresh_int('lt_j')
+        for seq_, fact_, length_ in list(ip.universals):          # instances at jq of what the code's own tests established
+            ip.add_pc(z3.Implies(z3.And(jq >= 0, jq < length_), to_z3(fact_(jq))))
+        for rec_ in ip.ghost.get('filters', {}).values():
+            ip.add_pc(rec_['facts_m'](jq))
+        ip.prove('nt/callee-requires-last-times-not-before-the-first',
+                 z3.Implies(z3.And(jq >= 0, jq < lt.length), z3.And([lt.fn(jq) >= to_int(x) for x in ft])))
         ip.prove('nt/dt-governs-dynamics', veq(kw['dt'], g['dt_axes']) if 'dt' in kw else z3.BoolVal(False))
         ip.prove('nt/start-time-governs-dynamics', veq(kw['start_time'], g['t0']) if 'start_time' in kw else z3.BoolVal(False))
         f = CorrN[nops]
